@@ -1646,7 +1646,10 @@ class C18Executor(Executor):
                 self.unsupported(n, "forking / raising condition in comprehension over a symbolic sequence")
             s2 = rc[0][0]
             keep.append(self.truth(s2, rc[0][1]).t)
+        base = s2.fork()
         res = self.ev(elt, s2)
+        if len(res) > 1 and len(self.sinks[-1]) == mark:
+            res = self.merge_bool_forks(base, res, pclen)       # round 7: a pure case split inside the element is one If-term
         if len(res) != 1 or len(self.sinks[-1]) != mark or len(res[0][0].pc) != pclen:
             self.unsupported(n, "forking / raising element expression in comprehension over a symbolic sequence")
         s3, val = res[0]
@@ -1654,6 +1657,32 @@ class C18Executor(Executor):
         kc = z3.And(keep) if keep else None
         return (s3, seq, (lambda j, val=val, i=i: subst_v(val, i, j)),
                 (lambda j, kc=kc, i=i: z3.BoolVal(True) if kc is None else z3.substitute(kc, (i, j))), val.kind, bool(keep))
+
+    def merge_bool_forks(self, base, res, pclen):
+        """Element expression of a comprehension that forked (e.g. a helper with `if c: return a` / `return b`): when every
+        outcome is a bool, left heap / ghost / yields / frames as they were and only added branch conditions, and those
+        conditions are proved exhaustive under the path condition (so nothing was *assumed* on the way), the element is the
+        single term If(c1, v1, If(c2, v2, ..)).  Anything else: returned unchanged (-> out of subset)."""
+        conds = []
+        for (s_k, v_k) in res:
+            if not isinstance(v_k, VBool) or len(s_k.pc) < pclen or any(a is not b for a, b in zip(s_k.pc[:pclen], base.pc)):
+                return res
+            if len(s_k.frames) != len(base.frames) or len(s_k.yielded) != len(base.yielded):
+                return res
+            if set(s_k.heap) != set(base.heap) or any(s_k.heap[r] is not base.heap[r] for r in base.heap):
+                return res
+            if set(s_k.ghost) != set(base.ghost) or any(not (s_k.ghost[g] is base.ghost[g] or s_k.ghost[g] == base.ghost[g]) for g in base.ghost):
+                return res
+            for fa, fb in zip(s_k.frames, base.frames):
+                if set(fa.env) != set(fb.env) or any(fa.env[x] is not fb.env[x] for x in fb.env):
+                    return res
+            conds.append(z3.And(*s_k.pc[pclen:]) if len(s_k.pc) > pclen else z3.BoolVal(True))
+        if not proves(self, base, z3.Or(conds), timeout_ms=1000):
+            return res
+        term = res[-1][1].t
+        for c_k, (_, v_k) in zip(reversed(conds[:-1]), reversed(res[:-1])):
+            term = z3.If(c_k, v_k.t, term)
+        return [(base, VBool(term))]
 
     def e_GeneratorExp(self, n, st):
         r = self.sym_comp(n, n.elt, st)
